@@ -481,7 +481,16 @@ def w_diff(mp, t):
     elif api == "diffs":
         vs = list(mp.diffs(f, x, n, **kw))
     elif api == "diffun":
-        vs = [mp.diffun(f, n, **kw)(x)]
+        if "make_prec" in t:
+            # the derivative function is CREATED at one working precision and CALLED at another (it must honour the precision
+            # in force at the call, like diff itself)
+            mp.prec = int(t["make_prec"])
+            g_ = mp.diffun(f, n, **kw)
+            mp.prec = int(t["prec"])
+            x = mk_point(mp, t["x"])
+            vs = [g_(x)]
+        else:
+            vs = [mp.diffun(f, n, **kw)(x)]
     elif api == "taylor":
         vs = mp.taylor(f, x, n, **kw)
     else:
